@@ -274,6 +274,24 @@ def run_jobs(prop_mod_name, conds, tier, repo, nproc=16, seed=0, excluded_by_con
                          r.get('queries'), r.get('solver_s', 0.0), r.get('wall_s', 0.0),
                          (r.get('detail') or '')[:160].replace('\n', ' | ')), flush=True)
         running = still
+        if os.environ.get('VF_FIRST_VIOLATION') and \
+                any(r['status'] == 'violation' for r in results.values()):
+            # seed-testing aid (tools/runseeds.py): stop at the first replayed violation
+            for (c, p, out, t0) in running:
+                p.terminate()
+                p.join(5)
+                try:
+                    os.unlink(out)
+                except OSError:
+                    pass
+                results[c.name] = {'cond': c.name, 'status': 'inconclusive',
+                                   'detail': 'stopped after first violation', 'paths': 0,
+                                   'paths_done': 0, 'queries': 0, 'solver_s': 0.0, 'wall_s': 0.0}
+            for c in pending:
+                results[c.name] = {'cond': c.name, 'status': 'inconclusive',
+                                   'detail': 'stopped after first violation', 'paths': 0,
+                                   'paths_done': 0, 'queries': 0, 'solver_s': 0.0, 'wall_s': 0.0}
+            running, pending = [], []
     return results
 
 
@@ -363,8 +381,9 @@ def check_property(prop_id, mod_name, tier, repo, seed, only=None, nproc=16):
     for r in errors:
         print('HARNESS-ERROR %s: %s' % (r['cond'], (r.get('detail') or '')[:3000]), flush=True)
     wall = time.time() - t0
-    write_evidence(prop_id, mod, tier, seed, conds, results, known_hits, wall,
-                   len(violations))
+    if not os.environ.get('VF_FIRST_VIOLATION'):      # seed-testing runs are not evidence
+        write_evidence(prop_id, mod, tier, seed, conds, results, known_hits, wall,
+                       len(violations))
     if violations:
         return EXIT_VIOLATION
     if errors:
@@ -376,6 +395,7 @@ def check_property(prop_id, mod_name, tier, repo, seed, only=None, nproc=16):
 
 def write_evidence(prop_id, mod, tier, seed, conds, results, known_hits, wall, nviol):
     paths = sum(int(r.get('paths_done') or 0) for r in results.values())
+    started = sum(int(r.get('paths') or 0) for r in results.values())
     direct = sum(int(r.get('direct_queries') or 0) for r in results.values())
     queries = sum(int(r.get('queries') or 0) for r in results.values())
     solver_s = sum(float(r.get('solver_s') or 0.0) for r in results.values())
@@ -414,13 +434,15 @@ def write_evidence(prop_id, mod, tier, seed, conds, results, known_hits, wall, n
             'explanation': info.get('explanation', '') + ' | This run: %d conditions, %d '
             'confirmed over all paths within bounds, %d inconclusive, %d violations, %d known '
             'findings.' % (len(conds), n_conf, n_inc, nviol, len(known_hits)),
-            'evaluations': int(paths + direct),
+            'evaluations': int(max(started, paths) + direct),
             'distinct_nontrivial': int(paths + direct),
-            'rule': 'evaluations = symbolic paths CrossHair completed through the re-hosted '
-                    'FlowCal code and reached the oracle (each is a distinct sequence of branch '
-                    'decisions; paths discarded by an assumption are not counted) plus direct '
-                    'z3 queries discharged; each path stands for all inputs satisfying its path '
-                    'condition, decided by z3.',
+            'rule': 'evaluations = symbolic paths CrossHair started through the re-hosted FlowCal '
+                    'code (each a distinct sequence of branch decisions in CrossHair\'s search '
+                    'tree) plus direct z3 queries; distinct_nontrivial = those paths that ran to '
+                    'the end and reached the oracle with a verdict (paths discarded by a harness '
+                    'assumption or cut by a solver timeout are not counted) plus direct queries '
+                    'with a definite sat/unsat answer.  Each path stands for all inputs '
+                    'satisfying its path condition, decided by z3.',
             'samples': samples[:12],
             'obligations': len(conds),
             'discharged': n_conf,
